@@ -258,7 +258,23 @@ func (t *Object) metaMatch(rt reflect.Type) (match bool, bound bool) {
 	}
 	meta, _ := t.metaCheck(rt)
 
-	return meta == rt, meta != nil
+	return sameGoType(meta, rt), meta != nil
+}
+
+// sameGoType reports whether a and b are the same Go type, a pointer to a
+// struct type and the struct type itself being the same. An application can
+// hand out a value in one place and a pointer to it in another.
+func sameGoType(a, b reflect.Type) bool {
+	if a == nil || b == nil {
+		return a == b
+	}
+	if a.Kind() == reflect.Ptr {
+		a = a.Elem()
+	}
+	if b.Kind() == reflect.Ptr {
+		b = b.Elem()
+	}
+	return a == b
 }
 
 func (t *Object) metaCheck(rt reflect.Type) (reflect.Type, error) {
